@@ -4,6 +4,7 @@ import (
 	"go/ast"
 	"go/token"
 	"go/types"
+	"strings"
 
 	"golang.org/x/tools/go/cfg"
 )
@@ -621,6 +622,228 @@ func init() {
 				}
 				return true
 			})
+			return obs
+		}})
+}
+
+// FRAME.pointer-not-held — C02 ("tail-call elimination is transparent"): the
+// frames live in a slice, CallStack.Frames, and Stack.Top() hands out a
+// pointer INTO that slice.  Any evaluator call in between may push frames;
+// when the push reallocates the slice the pointer refers to the old copy, and
+// a store through it (Terminal = false between tail iterations) no longer
+// reaches the live frame.  Nothing notices until the stack first grows past
+// its capacity inside such a loop.
+func init() {
+	register(&Rule{ID: "FRAME.pointer-not-held", Floor: 2,
+		Doc: "a local that holds the result of CallStack.Top() (a pointer into the Frames slice) is never used on a path that passed an evaluator call (eval, call, funCall, Eval, Load…) after the local was assigned: frame fields are reached through a fresh Top() after anything that can push",
+		Run: func(c *Ctx) []Obligation {
+			const rid = "FRAME.pointer-not-held"
+			top := c.LookupMethod("lisp.CallStack.Top")
+			if top == nil {
+				return []Obligation{anchorMissing(rid, "CallStack.Top")}
+			}
+			evalLike := c.evalLikeSet()
+			var obs []Obligation
+			for _, u := range c.Funcs(func(p string) bool { return rel(p) == "lisp" }) {
+				if u.Decl == nil || u.Decl.Body == nil {
+					continue
+				}
+				info := u.Pkg.TypesInfo
+				var fc *FCFG
+				ord := &ordinal{}
+				ast.Inspect(u.Decl.Body, func(n ast.Node) bool {
+					if _, ok := n.(*ast.FuncLit); ok {
+						return false
+					}
+					as, ok := n.(*ast.AssignStmt)
+					if !ok || len(as.Lhs) != 1 || len(as.Rhs) != 1 {
+						return true
+					}
+					ce, ok := ast.Unparen(as.Rhs[0]).(*ast.CallExpr)
+					if !ok || originOf(Callee(info, ce)) != top {
+						return true
+					}
+					x := identObj(info, as.Lhs[0])
+					if x == nil {
+						return true
+					}
+					if fc == nil {
+						fc = c.cfgOf(u, nil)
+					}
+					construct := ord.next("local " + x.Name() + " := Stack.Top()")
+					def, ok := fc.Locate(as)
+					if !ok {
+						obs = append(obs, mkOb(c, rid, u, construct, as, Undecided, "assignment not located in the CFG", true))
+						return true
+					}
+					// forward walk: state 0 = fresh, 1 = an evaluator call has happened
+					type st struct {
+						b     *cfg.Block
+						i     int
+						stale bool
+					}
+					seen := map[[2]interface{}]bool{}
+					work := []st{{def.B, def.I + 1, false}}
+					var badUse ast.Node
+					for len(work) > 0 && badUse == nil {
+						it := work[len(work)-1]
+						work = work[:len(work)-1]
+						stale := it.stale
+						killed := false
+						for i := it.i; i < len(it.b.Nodes) && !killed; i++ {
+							n := it.b.Nodes[i]
+							// re-assignment of x from a fresh Top() kills the old value
+							if as2, ok := n.(*ast.AssignStmt); ok && len(as2.Lhs) == 1 && identObj(info, as2.Lhs[0]) == x {
+								killed = true
+								break
+							}
+							usesX := false
+							ast.Inspect(n, func(m ast.Node) bool {
+								if id, ok := m.(*ast.Ident); ok && info.Uses[id] == x {
+									usesX = true
+								}
+								return true
+							})
+							if usesX && stale {
+								badUse = n
+								break
+							}
+							for _, c2 := range callsIn(n, false) {
+								if f := originOf(Callee(info, c2)); f != nil && evalLike[f] {
+									stale = true
+								}
+							}
+						}
+						if killed || badUse != nil {
+							continue
+						}
+						for _, s := range it.b.Succs {
+							key := [2]interface{}{s, stale}
+							if !seen[key] {
+								seen[key] = true
+								work = append(work, st{s, 0, stale})
+							}
+						}
+					}
+					if badUse != nil {
+						obs = append(obs, mkOb(c, rid, u, construct, badUse, Violated, "the frame pointer obtained from Stack.Top() is used after an evaluator call on the same path: the call can push frames and reallocate the Frames slice, after which stores through the pointer (Terminal, TailIterations, HeightLogical) update a dead copy — the live frame keeps the previous iteration's Terminal flag, so a call from a non-final body form is taken for a tail call and never runs", true))
+					} else {
+						obs = append(obs, mkOb(c, rid, u, construct, as, Proved, "every use precedes any evaluator call", true))
+					}
+					return true
+				})
+			}
+			return obs
+		}})
+}
+
+// TRO.last-turn-terminal — C02 ("constant stack through every construct that
+// preserves tail position"): thread-first and thread-last evaluate their
+// steps in a loop and hand the LAST step to Terminal instead of evaluating it.
+// "Last" is an index comparison; if it can never be true the value is still
+// right (the loop evaluates every step) but each turn of a loop written with
+// the operator now costs a frame.
+func init() {
+	register(&Rule{ID: "TRO.last-turn-terminal", Floor: 2,
+		Doc: "in thread-first and thread-last the return of env.Terminal(<call>) inside the loop over the step forms is guarded by `<index> == len(<the ranged slice>) - 1` (locals with a single definition expanded): the comparison is true on the final turn, so the final step is forwarded in tail position",
+		Run: func(c *Ctx) []Obligation {
+			const rid = "TRO.last-turn-terminal"
+			term := c.LookupMethod("lisp.LEnv.Terminal")
+			if term == nil {
+				return []Obligation{anchorMissing(rid, "LEnv.Terminal")}
+			}
+			var obs []Obligation
+			for _, e := range c.Registry() {
+				if rel(e.Pkg.PkgPath) != "lisp" || (e.Name != "thread-first" && e.Name != "thread-last") {
+					continue
+				}
+				body, u, _, ok := c.BodyOf(e)
+				if !ok {
+					obs = append(obs, Obligation{Rule: rid, Func: "lisp." + e.Table, Construct: "construct " + e.Name, Verdict: Undecided, Detail: "no body"})
+					continue
+				}
+				info := u.Pkg.TypesInfo
+				// expand single-definition locals
+				var expand func(e ast.Expr, depth int) string
+				expand = func(e ast.Expr, depth int) string {
+					e = ast.Unparen(e)
+					if depth < 4 {
+						if o := identObj(info, e); o != nil {
+							var def ast.Expr
+							n := 0
+							ast.Inspect(body, func(m ast.Node) bool {
+								if as, ok := m.(*ast.AssignStmt); ok && len(as.Lhs) == len(as.Rhs) {
+									for i, l := range as.Lhs {
+										if identObj(info, l) == o {
+											n++
+											def = as.Rhs[i]
+										}
+									}
+								}
+								return true
+							})
+							if n == 1 && def != nil {
+								if _, isCall := ast.Unparen(def).(*ast.CallExpr); !isCall || strings.HasPrefix(types.ExprString(def), "len(") {
+									if _, isBin := ast.Unparen(def).(*ast.BinaryExpr); isBin || strings.HasPrefix(types.ExprString(def), "len(") {
+										return expand(def, depth+1)
+									}
+								}
+							}
+						}
+					}
+					if be, ok := e.(*ast.BinaryExpr); ok {
+						return "(" + expand(be.X, depth+1) + " " + be.Op.String() + " " + expand(be.Y, depth+1) + ")"
+					}
+					if ce, ok := e.(*ast.CallExpr); ok && len(ce.Args) == 1 {
+						if id, ok := ast.Unparen(ce.Fun).(*ast.Ident); ok && id.Name == "len" {
+							return "len(" + expand(ce.Args[0], depth+1) + ")"
+						}
+					}
+					return types.ExprString(e)
+				}
+				found := false
+				ast.Inspect(body, func(n ast.Node) bool {
+					rs, ok := n.(*ast.RangeStmt)
+					if !ok || rs.Key == nil {
+						return true
+					}
+					idx := types.ExprString(rs.Key)
+					ranged := expand(rs.X, 0)
+					ast.Inspect(rs.Body, func(m ast.Node) bool {
+						is, ok := m.(*ast.IfStmt)
+						if !ok {
+							return true
+						}
+						returnsTerminal := false
+						for _, st := range is.Body.List {
+							if ret, ok := st.(*ast.ReturnStmt); ok && len(ret.Results) == 1 {
+								if ce, ok := ast.Unparen(ret.Results[0]).(*ast.CallExpr); ok && originOf(Callee(info, ce)) == term {
+									returnsTerminal = true
+								}
+							}
+						}
+						if !returnsTerminal {
+							return true
+						}
+						found = true
+						got := expand(is.Cond, 0)
+						want1 := "(" + idx + " == (len(" + ranged + ") - 1))"
+						want2 := "((len(" + ranged + ") - 1) == " + idx + ")"
+						want3 := "((" + idx + " + 1) == len(" + ranged + "))"
+						construct := "construct " + e.Name + ": final step forwarded"
+						if got == want1 || got == want2 || got == want3 {
+							obs = append(obs, mkOb(c, rid, u, construct, is, Proved, "guard is "+got, true))
+						} else {
+							obs = append(obs, mkOb(c, rid, u, construct, is, Violated, "the Terminal return is guarded by "+got+", which is not `"+idx+" == len("+ranged+") - 1`: if it is never true on the final turn the last step is evaluated with Eval like the others, so a loop written through "+e.Name+" grows the stack by a frame per turn (values stay right, which is why no test notices)", true))
+						}
+						return true
+					})
+					return true
+				})
+				if !found {
+					obs = append(obs, mkOb(c, rid, u, "construct "+e.Name+": final step forwarded", body, Undecided, "no `if … { return env.Terminal(…) }` inside a range loop over the steps found", true))
+				}
+			}
 			return obs
 		}})
 }
